@@ -127,3 +127,23 @@ def repo_tests_validate(res, test_file='tests/test_events.py'):
         t = usable[idx] if idx >= 0 else None
         res.violation('execution of repository test %s not explained by Dispatcher.tla (matched %s events)' % (t and t['test'], at),
                       {'trace': t, 'matched_events': at})
+
+
+def simulate_big(res, num_per_worker=1000, depth=60):
+    """Model-level exploration beyond the exhaustive instances (thorough tier): 3 handlers, every subscription
+    pattern, every combination of handler behaviours (raise, disable, enable, add, remove, drop, nested dispatch),
+    clear(), queue bound 3: `tlc -simulate` evaluates every invariant and property along random behaviours."""
+    import os
+    from .. import tlc
+    c, ov = consts(H=3, subs='Subs_All', beh='Beh_All', maxq=3, maxeid=5, clear=True, ghosts=True)
+    cfg = os.path.join(res.scratch, 'dispatcher_sim_big.cfg')
+    tlc.write_cfg(cfg, spec='Spec', constants=c, invariants=INVARIANTS, properties=PROPERTIES, overrides=ov)
+    r = tlc.run('DispatcherMC', cfg, res.scratch, simulate='num=%d' % num_per_worker, depth=depth, seed=res.seed, workers=16,
+                timeout=900, module_dir=res.specdir)
+    res.tlc_runs.append({'module': 'DispatcherMC', 'config': 'sim_big', 'mode': 'simulate num=%d/worker depth=%d' % (num_per_worker, depth),
+                         'constants': {k: str(v) for k, v in c.items()}, 'invariants': INVARIANTS, 'properties': PROPERTIES,
+                         'states_generated': r.states, 'wall_s': round(r.wall, 1), 'result': 'ok' if r.ok else r.violated})
+    if not r.ok:
+        raise common.MachineryError('intended model DispatcherMC/sim_big does not satisfy its own properties in simulation (%s) — '
+                                    'specification bug\n%s' % (r.violated, r.out[-4000:]))
+    res.transitions += r.states or 0
